@@ -191,6 +191,22 @@ def validator_oracle(ctx):
                 return Failure("C13/validator/build-rejects-valid", "%s over %s with %s: build(%d) -> %r" % (form, subname, p, v, o))
             if not want and not is_exc(o, err):
                 return Failure("C13/validator/build-accepts-invalid", "%s over %s with %s: build(%d) -> %r (a value violating the constraint was serialised or the wrong error raised)" % (form, subname, p, v, o))
+        # the validated field generates its own value (Default, Const, Rebuild) and nothing is supplied: whatever build does with
+        # that, bytes the same construct refuses to parse must not come out
+        if p[0] == "in" or check:
+            picks = [v for v in list(p[1])[:2] + [lo, hi, 7] if isinstance(v, int) and lo <= v <= hi] if p[0] == "in" else [lo, hi, 0, 7, 9]
+            for d in picks:
+                for wname, wrap in (("Default", lambda x: C.Default(x, d)), ("Const", lambda x: C.Const(d, x)), ("Rebuild", lambda x: C.Rebuild(x, lambda ctx: d))):
+                    con2 = make_validator(form, p, wrap(ONEBYTE[subname]()))
+                    o = call(con2.build, dict() if check else None)
+                    ctx.record([case, "build-generated", wname, d], True, ["validator/build-generated-value"])
+                    if o.ok:
+                        back = call(con2.parse, o.value)
+                        if o.value != encode1(subname, d) or not back.ok:
+                            return Failure("C13/validator/build-serialises-refused-value", "%s over %s(%s, %d) with %s: build from nothing -> %s, parsing that -> %r" % (
+                                form, wname, subname, d, p, o.value.hex(), back))
+                    elif not isinstance(o.exc, C.ConstructError):
+                        return Failure("C13/validator/build-generated-foreign", "%s over %s(%s, %d) with %s: build from nothing raised %r" % (form, wname, subname, d, p, o))
         return None
     return oracle
 
@@ -355,7 +371,7 @@ LABELS = ["A", "B", "c", "dd", "E_5", "f"]
 
 def enum_oracle(ctx):
     def oracle(case):
-        subname, table = case        # table: [[label, value], ...] injective
+        subname, table = case        # table: [[label, value], ...]; values may repeat (aliases)
         wide = subname in WIDE
         sub = WIDE[subname][0]() if wide else ONEBYTE[subname]()
         con = C.Enum(sub, **{l: v for l, v in table})
@@ -374,7 +390,10 @@ def enum_oracle(ctx):
                         return Failure("C13/enum/parse-unmapped", "Enum(%s, %s).parse(%02x) -> %r, expected integer %d" % (subname, table, b, o, v))
         # build: labels, attribute objects, ints (mapped and unmapped, any magnitude for variable-length subs), unknown labels
         for l, v in table:
-            for spelling in (l, getattr(con, l), con.parse(sub.build(v))):
+            attr = call(getattr, con, l)
+            if not attr.ok:
+                return Failure("C13/enum/label-attribute", "Enum(%s, %s).%s raised %r" % (subname, table, l, attr))
+            for spelling in (l, attr.value, con.parse(sub.build(v))):
                 o = call(con.build, spelling)
                 ctx.record([case, "build-label", l], True, ["enum/build-label"])
                 if not (o.ok and o.value == sub.build(v)):
@@ -442,6 +461,10 @@ def enum_cases(draw):
     else:
         vals = st.integers(0, 65535)
     vs = draw(st.lists(vals, min_size=1, max_size=5, unique=True))
+    if len(vs) < 5 and draw(st.integers(0, 2)) == 0:
+        # aliases: several labels for one value (every one of them builds; the last one declared is what parsing reports)
+        for _ in range(draw(st.integers(1, 5 - len(vs)))):
+            vs.insert(draw(st.integers(0, len(vs))), draw(st.sampled_from(vs)))
     return [subname, [[l, v] for l, v in zip(LABELS, vs)]]
 
 
